@@ -49,7 +49,7 @@ static void mon_stop_effects(int s) {
         m->src[i].present = 0;
     }
     m->ever_batched = 0; m->nst = 0; m->nhs = 0; m->batch_size = 0; m->batch_tmo = 0; m->batch_fired = 0; m->tb_rate = 0; m->tb_burst = 0;
-    m->st = S_STOPPED;
+    m->st = S_STOPPED; mt_del_all(s);
 }
 
 static void cb_enter(int s, int kind) {
